@@ -1,110 +1,170 @@
 /-
   C17 — command steps report exit status faithfully and in declaration order.
 
-  Property theorems only (helper lemmas: Props/Lemmas/C17_Serial.lean, C17_Async.lean).
+  Property theorems only (helper lemmas: Props/Lemmas/C17_Serial.lean, C17_Async.lean, C17_Wait.lean,
+  C17_Trace.lean, C17_Parse.lean, C17_Files.lean).
   Every statement is for *all* command lists (single string, expanded maps, `run:` lists,
   nested serial sub-lists), *all* scripted outcomes — exit status over `Int` (0, positive exit
-  codes, **negative = killed by a signal**) or "cannot be started at all" (the spawn call raises) —
-  all outputs and, for the concurrent steps, *all* completion schedules (arbitrary lists of lane
-  indices, not only permutations).
+  codes, **negative = killed by a signal**), "cannot be started at all" (the spawn call raises), or
+  "ran, but what it wrote cannot be decoded" (`decodeFails`) — all outputs, all outcomes of opening the
+  commands' output files and, for the concurrent steps, *all* completion schedules (arbitrary lists of
+  lane indices, not only permutations).
 
   "Zero" always means `= (0 : Int)`; a loop stops at the first command whose status is `≠ 0`
-  (not "`> 0`") or that cannot be started.
+  (not "`> 0`"), that cannot be started, or whose captured output cannot be decoded.
+
+  Vocabulary: `d.undec` / `l.dec && p.decodeFails` — the command captures output (`save`), decodes it
+  (serial: text mode *or* an `encoding`; concurrent: text mode) and this instruction's output is not
+  valid under the encoding. Only then does `decodeFails` matter.
 -/
 import PypyrModel.Cmd
 import Props.Lemmas.C17_Serial
 import Props.Lemmas.C17_Async
 import Props.Lemmas.C17_Wait
+import Props.Lemmas.C17_Trace
+import Props.Lemmas.C17_Parse
+import Props.Lemmas.C17_Files
+
+set_option linter.unusedSimpArgs false
 
 namespace Pypyr.C17
 open Pypyr.Cmd
 
+/-! Shorthands for the examples. -/
+
+/-- A process that runs and exits with `code`. -/
+def P (id : Nat) (code : Int) (out err : String) : Proc := ⟨id, none, code, out, err, false⟩
+/-- An instruction that cannot be started. -/
+def PX (id : Nat) (k : SpawnKind) : Proc := ⟨id, some k, 0, "", "", false⟩
+/-- A process that runs, exits with `code`, and writes the bytes ff fe (not text in utf-8 / ascii). -/
+def PU (id : Nat) (code : Int) : Proc := ⟨id, none, code, "ÿþ", "", true⟩
+def S (run : List Proc) (save text : Bool) : SCommand := ⟨run, save, text, false, {}⟩
+def A (run : ARun) (save text : Bool) : ACommand := ⟨run, save, text, {}⟩
+/-- A command writing stdout to the file `path`; `bad`: the path cannot be opened. -/
+def toFile (path : String) (bad : Option OpenKind) : Redirect :=
+  { stdout := .file path, openErr := bad.map (fun k => (false, k)) }
+
 /-! ## cmd / shell -/
 
-/-- The step succeeds iff every declared command can be started and exits 0. -/
-theorem serial_ok_iff_all_zero (cs : List SCommand) :
-    (runSerial cs).err = none ↔ ∀ d ∈ declsOf cs, d.proc.spawn = none ∧ d.proc.code = 0 := by
-  simp only [runSerial, runCommands_closed, firstFailD_none_iff, stops_false_iff]
+/-- The step succeeds iff every declared command can be started, exits 0 and — where its command
+    decodes what it captures — wrote decodable output. (`ho`: every output file can be opened; the
+    other case is `serial_open_failure`.) -/
+theorem serial_ok_iff_all_zero (cs : List SCommand) (ho : ∀ c ∈ cs, c.redir.openError = none) :
+    (runSerial cs).err = none ↔
+      ∀ d ∈ declsOf cs, d.proc.spawn = none ∧ d.proc.code = 0 ∧ d.undec = false := by
+  simp only [runSerial, runCommands_closed cs ho, firstFailD_none_iff, Decl.stops_false_iff]
 
-example : (runSerial [⟨[⟨1, none, 0, "a", ""⟩, ⟨2, none, 0, "", ""⟩], true, true⟩, ⟨[⟨3, none, 0, "", ""⟩], false, false⟩]).err = none ∧
-    (runSerial [⟨[⟨1, none, 0, "a", ""⟩, ⟨2, none, 3, "", ""⟩], true, true⟩, ⟨[⟨3, none, 0, "", ""⟩], false, false⟩]).err = some (.exit 2 3) ∧
-    (runSerial [⟨[⟨1, none, 0, "a", ""⟩, ⟨2, none, -9, "", ""⟩], true, true⟩, ⟨[⟨3, none, 0, "", ""⟩], false, false⟩]).err = some (.exit 2 (-9)) ∧
-    (runSerial [⟨[⟨1, none, 0, "a", ""⟩, ⟨2, some .notFound, 0, "", ""⟩], true, true⟩, ⟨[⟨3, none, 0, "", ""⟩], false, false⟩]).err
-      = some (.spawn 2 .notFound) := by
+example : (runSerial [S [P 1 0 "a" "", P 2 0 "" ""] true true, S [P 3 0 "" ""] false false]).err = none ∧
+    (runSerial [S [P 1 0 "a" "", P 2 3 "" ""] true true, S [P 3 0 "" ""] false false]).err = some (.exit 2 3) ∧
+    (runSerial [S [P 1 0 "a" "", P 2 (-9) "" ""] true true, S [P 3 0 "" ""] false false]).err = some (.exit 2 (-9)) ∧
+    (runSerial [S [P 1 0 "a" "", PX 2 .notFound] true true, S [P 3 0 "" ""] false false]).err
+      = some (.spawn 2 .notFound) ∧
+    -- every command exits 0, the 2nd one's output is not text: the step fails
+    (runSerial [S [P 1 0 "a" "", PU 2 0] true true, S [P 3 0 "" ""] false false]).err = some (.decode 2) ∧
+    -- … not so when nothing is decoded (no save; save + bytes)
+    (runSerial [S [P 1 0 "a" "", PU 2 0] false false, S [PU 3 0] true false]).err = none := by
   decide +kernel
 
 /-- The commands run (`pre`: a process existed for each) are a prefix of the declaration, *started in
     that order*. Then exactly one of:
-    * no error: nothing is left and every one exited 0;
+    * no error: nothing is left, every one exited 0 (and its output, where decoded, was decodable);
     * a `CalledProcessError`: the last one run exited non-zero — **positive or negative** —, all before
       it exited 0, the error carries that command and that status;
+    * a `UnicodeDecodeError` (`.decode`): the last one **ran** (it is in `started`), its captured output
+      cannot be decoded; the error is *not* an exit error — whatever the exit status was;
     * a spawn error: every one run exited 0, the *next* declared command could not be started and the
       error is its.
-    In the last two cases nothing after the failing command was started (`started` is exactly `pre`). -/
-theorem serial_started_is_prefix (cs : List SCommand) :
+    In the last three cases nothing after the failing command was started (`started` is exactly `pre`). -/
+theorem serial_started_is_prefix (cs : List SCommand) (ho : ∀ c ∈ cs, c.redir.openError = none) :
     ∃ pre rest, declsOf cs = pre ++ rest ∧ (runSerial cs).started = pre.map (·.proc.id) ∧
       (∀ d ∈ pre, d.proc.spawn = none) ∧
       match (runSerial cs).err with
-      | none => rest = [] ∧ ∀ d ∈ pre, d.proc.code = 0
-      | some (.exit i c) => ∃ init d, pre = init ++ [d] ∧ (∀ x ∈ init, x.proc.code = 0) ∧
-          d.proc.code ≠ 0 ∧ i = d.proc.id ∧ c = d.proc.code
-      | some (.spawn i k) => (∀ d ∈ pre, d.proc.code = 0) ∧
-          ∃ d rest', rest = d :: rest' ∧ d.proc.spawn = some k ∧ i = d.proc.id := by
+      | none => rest = [] ∧ ∀ d ∈ pre, d.proc.code = 0 ∧ d.undec = false
+      | some (.exit i c) => ∃ init d, pre = init ++ [d] ∧ (∀ x ∈ init, x.proc.code = 0 ∧ x.undec = false) ∧
+          d.proc.code ≠ 0 ∧ d.undec = false ∧ i = d.proc.id ∧ c = d.proc.code
+      | some (.decode i) => ∃ init d, pre = init ++ [d] ∧ (∀ x ∈ init, x.proc.code = 0 ∧ x.undec = false) ∧
+          d.undec = true ∧ i = d.proc.id
+      | some (.spawn i k) => (∀ d ∈ pre, d.proc.code = 0 ∧ d.undec = false) ∧
+          ∃ d rest', rest = d :: rest' ∧ d.proc.spawn = some k ∧ i = d.proc.id
+      | some (.openOut _ _) => False := by
   obtain ⟨rest, h1, h2, h3⟩ := ranD_split (declsOf cs)
   refine ⟨ranD (declsOf cs), rest, h1, ?_, h2, ?_⟩
-  · simp [runSerial, runCommands_closed]
-  · simp only [runSerial, runCommands_closed]
+  · simp [runSerial, runCommands_closed cs ho]
+  · simp only [runSerial, runCommands_closed cs ho]
     exact h3
 
-example : (runSerial [⟨[⟨1, none, 0, "", ""⟩, ⟨2, none, 1, "", ""⟩, ⟨3, none, 0, "", ""⟩], false, false⟩, ⟨[⟨4, none, 0, "", ""⟩], false, false⟩]).started
+example : (runSerial [S [P 1 0 "" "", P 2 1 "" "", P 3 0 "" ""] false false, S [P 4 0 "" ""] false false]).started
     = [1, 2] ∧
-  (runSerial [⟨[⟨1, none, 0, "", ""⟩, ⟨2, none, -15, "", ""⟩, ⟨3, none, 0, "", ""⟩], false, false⟩, ⟨[⟨4, none, 0, "", ""⟩], false, false⟩]).started
+  (runSerial [S [P 1 0 "" "", P 2 (-15) "" "", P 3 0 "" ""] false false, S [P 4 0 "" ""] false false]).started
     = [1, 2] ∧
-  (runSerial [⟨[⟨1, none, 0, "", ""⟩, ⟨2, some .permission, 0, "", ""⟩, ⟨3, none, 0, "", ""⟩], false, false⟩, ⟨[⟨4, none, 0, "", ""⟩], false, false⟩]).started
-    = [1] := by decide +kernel
+  (runSerial [S [P 1 0 "" "", PX 2 .permission, P 3 0 "" ""] false false, S [P 4 0 "" ""] false false]).started
+    = [1] ∧
+  (runSerial [S [P 1 0 "" "", PU 2 0, P 3 0 "" ""] true true, S [P 4 0 "" ""] false false]).started
+    = [1, 2] := by decide +kernel
 
 /-- "Succeeds iff every command it *ran* exited 0", on the commands actually attempted (the
     declaration prefix through the first one that stops the loop): the step succeeds iff each of them
-    could be started and exited 0. -/
-theorem serial_ok_iff_all_run_zero (cs : List SCommand) :
+    could be started, exited 0 **and its captured output could be decoded**. The last conjunct is where
+    the code departs from the property text: a command that ran and exited 0 can fail the step. -/
+theorem serial_ok_iff_all_run_zero (cs : List SCommand) (ho : ∀ c ∈ cs, c.redir.openError = none) :
     (runSerial cs).err = none ↔
-      ∀ d ∈ takeThroughD (declsOf cs), d.proc.spawn = none ∧ d.proc.code = 0 := by
+      ∀ d ∈ takeThroughD (declsOf cs), d.proc.spawn = none ∧ d.proc.code = 0 ∧ d.undec = false := by
   obtain ⟨rest, _, h2⟩ := takeThroughD_split (declsOf cs)
-  simp only [runSerial, runCommands_closed]
+  simp only [runSerial, runCommands_closed cs ho]
   cases hf : firstFailD (declsOf cs) with
   | none =>
     rw [hf] at h2
-    replace h2 : rest = [] ∧ ∀ d ∈ takeThroughD (declsOf cs), d.proc.stops = false := h2
-    exact ⟨fun _ d hd => (stops_false_iff _).mp (h2.2 d hd), fun _ => rfl⟩
+    replace h2 : rest = [] ∧ ∀ d ∈ takeThroughD (declsOf cs), d.stops = false := h2
+    exact ⟨fun _ d hd => (Decl.stops_false_iff _).mp (h2.2 d hd), fun _ => rfl⟩
   | some e =>
     rw [hf] at h2
     obtain ⟨init, d, h3, _, h5, _⟩ := h2
     simp only [reduceCtorEq, false_iff]
     intro hall
-    have := (stops_false_iff _).mpr (hall d (by simp [h3]))
+    have := (Decl.stops_false_iff _).mpr (hall d (by simp [h3]))
     simp [h5] at this
 
-example : ∃ d ∈ takeThroughD (declsOf [⟨[⟨1, none, 0, "", ""⟩, ⟨2, none, -9, "", ""⟩, ⟨3, none, 0, "", ""⟩], false, false⟩]),
-    d.proc.code ≠ 0 := ⟨⟨⟨2, none, -9, "", ""⟩, false, false⟩, by decide +kernel, by decide⟩
+example : ∃ d ∈ takeThroughD (declsOf [S [P 1 0 "" "", P 2 (-9) "" "", P 3 0 "" ""] false false]),
+    d.proc.code ≠ 0 := ⟨⟨P 2 (-9) "" "", false, false, false⟩, by decide +kernel, by decide⟩
 
-/-- With `save`, `cmdOut` holds one result per command actually run whose command has `save`,
-    in declaration order, the failed one included (it is appended before the return-code check) —
-    for every outcome sequence: a non-zero exit of either sign, or a later command that cannot be
-    started, loses none of the results of the commands that did run. One result is stored as the
-    object itself, several as a list, none leaves `cmdOut` untouched. -/
-theorem serial_cmdOut (cs : List SCommand) :
+/-- When nothing undecodable is captured (no `decodeFails` under a decoding command — in particular
+    for ASCII output) the step succeeds iff every command it ran exited 0: the property's clause. -/
+theorem serial_ok_iff_all_run_zero_decodable (cs : List SCommand)
+    (ho : ∀ c ∈ cs, c.redir.openError = none) (hd : ∀ d ∈ declsOf cs, d.undec = false) :
+    (runSerial cs).err = none ↔
+      ∀ d ∈ takeThroughD (declsOf cs), d.proc.spawn = none ∧ d.proc.code = 0 := by
+  rw [serial_ok_iff_all_run_zero cs ho]
+  obtain ⟨rest, h1, _⟩ := takeThroughD_split (declsOf cs)
+  have hmem : ∀ d ∈ takeThroughD (declsOf cs), d ∈ declsOf cs := fun d hd' => by rw [h1]; simp [hd']
+  exact ⟨fun h d hd' => ⟨(h d hd').1, (h d hd').2.1⟩,
+         fun h d hd' => ⟨(h d hd').1, (h d hd').2, hd d (hmem d hd')⟩⟩
+
+/-- With `save`, `cmdOut` holds one result per command actually run whose command has `save` **and whose
+    output could be decoded**, in declaration order, the failed one included (it is appended before the
+    return-code check) — for every outcome sequence: a non-zero exit of either sign, or a later command
+    that cannot be started, loses none of the results of the commands that did run. One result is stored
+    as the object itself, several as a list, none leaves `cmdOut` untouched. -/
+theorem serial_cmdOut (cs : List SCommand) (ho : ∀ c ∈ cs, c.redir.openError = none) :
     ∃ pre rest, declsOf cs = pre ++ rest ∧ (runSerial cs).started = pre.map (·.proc.id) ∧
-      (runSerial cs).results = (pre.filter (·.save)).map (fun d => mkResultSync d.text d.proc) ∧
+      (runSerial cs).results =
+        (pre.filter (fun d => d.save && !d.undec)).map (fun d => mkResultSync d.text d.enc d.proc) ∧
       (runSerial cs).cmdOut = cmdOutOf (runSerial cs).results := by
   obtain ⟨rest, h1, _⟩ := ranD_split (declsOf cs)
-  refine ⟨ranD (declsOf cs), rest, h1, by simp [runSerial, runCommands_closed], ?_, rfl⟩
-  simp only [runSerial, runCommands_closed, resultsOfD, ranD, List.filter_filter]
+  refine ⟨ranD (declsOf cs), rest, h1, by simp [runSerial, runCommands_closed cs ho], ?_, rfl⟩
+  simp only [runSerial, runCommands_closed cs ho, resultsOfD, ranD, List.filter_filter]
+  congr 1
+  apply List.filter_congr
+  intro d _
+  cases d.save <;> cases d.proc.ran <;> cases d.undec <;> rfl
 
-/-- When every command has `save`: exactly one result per started command, same order, carrying
-    that command's exit status. -/
-theorem serial_cmdOut_all_save (cs : List SCommand) (hs : ∀ c ∈ cs, c.save = true) :
-    (runSerial cs).results.map (·.id) = (runSerial cs).started ∧
-    (runSerial cs).results.map (·.code) = (ranD (declsOf cs)).map (·.proc.code) := by
+/-- When every command has `save`: one result per started command whose output could be decoded, same
+    order, carrying that command's exit status; when nothing undecodable is captured that is **exactly
+    one result per command actually run**. -/
+theorem serial_cmdOut_all_save (cs : List SCommand) (ho : ∀ c ∈ cs, c.redir.openError = none)
+    (hs : ∀ c ∈ cs, c.save = true) :
+    (runSerial cs).results.map (·.id) = ((ranD (declsOf cs)).filter (fun d => !d.undec)).map (·.proc.id) ∧
+    (runSerial cs).results.map (·.code) = ((ranD (declsOf cs)).filter (fun d => !d.undec)).map (·.proc.code) ∧
+    ((∀ d ∈ declsOf cs, d.undec = false) → (runSerial cs).results.map (·.id) = (runSerial cs).started) := by
   have hall : ∀ d ∈ declsOf cs, d.save = true := by
     induction cs with
     | nil => simp [declsOf]
@@ -113,41 +173,253 @@ theorem serial_cmdOut_all_save (cs : List SCommand) (hs : ∀ c ∈ cs, c.save =
       simp only [declsOf, List.mem_append, List.mem_map] at hd
       cases hd with
       | inl h => obtain ⟨p, _, rfl⟩ := h; exact hs c (by simp)
-      | inr h => exact ih (fun c' hc' => hs c' (by simp [hc'])) d h
+      | inr h =>
+        exact ih (fun c' hc' => ho c' (by simp [hc'])) (fun c' hc' => hs c' (by simp [hc'])) d h
   obtain ⟨rest, h1, _⟩ := takeThroughD_split (declsOf cs)
-  have hpre : ∀ d ∈ takeThroughD (declsOf cs), d.save = true := by
-    intro d hd
-    apply hall
-    rw [h1]
-    simp [hd]
-  have hfil : (takeThroughD (declsOf cs)).filter (fun d => d.save && d.proc.ran) = ranD (declsOf cs) := by
+  have hmem : ∀ d ∈ takeThroughD (declsOf cs), d ∈ declsOf cs := fun d hd => by rw [h1]; simp [hd]
+  have hfil : (takeThroughD (declsOf cs)).filter (fun d => d.save && d.proc.ran && !d.undec) =
+      (ranD (declsOf cs)).filter (fun d => !d.undec) := by
     unfold ranD
+    rw [List.filter_filter]
     apply List.filter_congr
     intro d hd
-    simp [hpre d hd]
-  constructor
-  · simp only [runSerial, runCommands_closed, resultsOfD, hfil, List.map_map]
+    simp [hall d (hmem d hd), Bool.and_comm]
+  have hid : ∀ d : Decl, (mkResultSync d.text d.enc d.proc).id = d.proc.id ∧
+      (mkResultSync d.text d.enc d.proc).code = d.proc.code := by
+    intro d
+    simp only [mkResultSync]
+    split <;> try split
+    all_goals exact ⟨rfl, rfl⟩
+  have h1' : (runSerial cs).results.map (·.id) =
+      ((ranD (declsOf cs)).filter (fun d => !d.undec)).map (·.proc.id) := by
+    simp only [runSerial, runCommands_closed cs ho, resultsOfD, hfil, List.map_map]
     apply List.map_congr_left
     intro d _
-    simp only [Function.comp, mkResultSync]
-    split <;> rfl
-  · simp only [runSerial, runCommands_closed, resultsOfD, hfil, List.map_map]
+    exact (hid d).1
+  refine ⟨h1', ?_, ?_⟩
+  · simp only [runSerial, runCommands_closed cs ho, resultsOfD, hfil, List.map_map]
     apply List.map_congr_left
     intro d _
-    simp only [Function.comp, mkResultSync]
-    split <;> rfl
+    exact (hid d).2
+  · intro hd
+    rw [h1']
+    simp only [runSerial, runCommands_closed cs ho]
+    congr 1
+    apply List.filter_eq_self.mpr
+    intro d hd'
+    simp only [ranD, List.mem_filter] at hd'
+    simp [hd d (hmem d hd'.1)]
 
-example : (runSerial [⟨[⟨1, none, 0, "x\n", ""⟩, ⟨2, none, 1, "", "boom \n"⟩, ⟨3, none, 0, "", ""⟩], true, true⟩]).cmdOut
+example : (runSerial [S [P 1 0 "x\n" "", P 2 1 "" "boom \n", P 3 0 "" ""] true true]).cmdOut
     = .many [⟨1, 0, .text "x", .text ""⟩, ⟨2, 1, .text "", .text "boom"⟩] ∧
   -- killed by SIGKILL: the result with code -9 is there, nothing after it ran
-  (runSerial [⟨[⟨1, none, 0, "x\n", ""⟩, ⟨2, none, -9, "", ""⟩, ⟨3, none, 0, "", ""⟩], true, true⟩]).cmdOut
+  (runSerial [S [P 1 0 "x\n" "", P 2 (-9) "" "", P 3 0 "" ""] true true]).cmdOut
     = .many [⟨1, 0, .text "x", .text ""⟩, ⟨2, -9, .text "", .text ""⟩] ∧
   -- the 2nd cannot be started: the result of the 1st is kept
-  (runSerial [⟨[⟨1, none, 0, "x\n", ""⟩, ⟨2, some .notFound, 0, "", ""⟩, ⟨3, none, 0, "", ""⟩], true, true⟩]).cmdOut
+  (runSerial [S [P 1 0 "x\n" "", PX 2 .notFound, P 3 0 "" ""] true true]).cmdOut
     = .single ⟨1, 0, .text "x", .text ""⟩ ∧
-  (runSerial [⟨[⟨1, none, 0, "A", ""⟩], true, true⟩, ⟨[⟨2, none, 0, "B", ""⟩, ⟨3, some .notFound, 0, "", ""⟩, ⟨4, none, 0, "", ""⟩], true, true⟩,
-              ⟨[⟨5, none, 0, "", ""⟩], false, false⟩]).cmdOut
-    = .many [⟨1, 0, .text "A", .text ""⟩, ⟨2, 0, .text "B", .text ""⟩] := by decide +kernel
+  (runSerial [S [P 1 0 "A" ""] true true, S [P 2 0 "B" "", PX 3 .notFound, P 4 0 "" ""] true true,
+              S [P 5 0 "" ""] false false]).cmdOut
+    = .many [⟨1, 0, .text "A", .text ""⟩, ⟨2, 0, .text "B", .text ""⟩] ∧
+  -- bytes mode with an encoding: subprocess.run decodes all the same, nothing is stripped
+  (runSerial [⟨[P 1 0 "x \n" ""], true, false, true, {}⟩]).cmdOut = .single ⟨1, 0, .text "x \n", .text ""⟩ := by
+  decide +kernel
+
+/-- **Undecodable captured output.** When the step ends with the decode error of command `i`:
+    `i` *was started* (it is the last of `started`), every command before it exited 0, **there is no
+    result for it** (the results are those of the commands before it), and the error is neither an exit
+    error nor a spawn error — although the process ran and has an exit status (possibly 0). Nothing
+    declared after it is started. -/
+theorem serial_undecodable (cs : List SCommand) (ho : ∀ c ∈ cs, c.redir.openError = none) (i : Nat)
+    (h : (runSerial cs).err = some (.decode i)) :
+    ∃ init d rest, declsOf cs = init ++ d :: rest ∧ d.undec = true ∧ d.proc.spawn = none ∧ i = d.proc.id ∧
+      (∀ x ∈ init, x.proc.spawn = none ∧ x.proc.code = 0 ∧ x.undec = false) ∧
+      (runSerial cs).started = init.map (·.proc.id) ++ [i] ∧
+      (runSerial cs).results =
+        (init.filter (·.save)).map (fun d => mkResultSync d.text d.enc d.proc) := by
+  obtain ⟨rest, h1, h2⟩ := takeThroughD_split (declsOf cs)
+  simp only [runSerial, runCommands_closed cs ho] at h ⊢
+  rw [h] at h2
+  obtain ⟨init, d, h3, h4, h5, h6⟩ := h2
+  have hsp : d.proc.spawn = none := by
+    cases hs : d.proc.spawn with
+    | none => rfl
+    | some k => simp [Decl.error, Proc.error, hs] at h6
+  have hu : d.undec = true := by
+    by_cases hu : d.undec = true
+    · exact hu
+    · have : (d.dec && d.proc.decodeFails) = false := by simpa [Decl.undec] using hu
+      simp [Decl.error, Proc.error, hsp, this] at h6
+  have hi : i = d.proc.id := by
+    have : (d.dec && d.proc.decodeFails) = true := hu
+    simpa [Decl.error, Proc.error, hsp, this] using h6
+  have hin : ∀ x ∈ init, x.proc.spawn = none ∧ x.proc.code = 0 ∧ x.undec = false :=
+    fun x hx => (Decl.stops_false_iff x).mp (h4 x hx)
+  refine ⟨init, d, rest, by rw [h1, h3]; simp, hu, hsp, hi, hin, ?_, ?_⟩
+  · simp only [ranD, h3, List.filter_append, filter_ran_of_not_stops h4]
+    simp [Proc.ran, hsp, hi]
+  · simp only [resultsOfD, h3, List.filter_append]
+    have : [d].filter (fun d => d.save && d.proc.ran && !d.undec) = [] := by simp [hu]
+    rw [this, List.append_nil]
+    congr 1
+    apply List.filter_congr
+    intro x hx
+    simp [(hin x hx).2.2, (ran_iff x.proc).mpr (hin x hx).1]
+
+/-- `echo one; <prints ff fe>; echo three` with `save`: every command exits 0, yet the step fails, the
+    third command never runs and `cmdOut` holds only the first result. With `bytes` all three results
+    are there; with `bytes` **and** an `encoding` the synchronous step decodes anyway and fails. -/
+example :
+    (runSerial [S [P 1 0 "one\n" "", PU 2 0, P 3 0 "three\n" ""] true true]).err = some (.decode 2) ∧
+    (runSerial [S [P 1 0 "one\n" "", PU 2 0, P 3 0 "three\n" ""] true true]).started = [1, 2] ∧
+    (runSerial [S [P 1 0 "one\n" "", PU 2 0, P 3 0 "three\n" ""] true true]).cmdOut
+      = .single ⟨1, 0, .text "one", .text ""⟩ ∧
+    (runSerial [S [P 1 0 "one\n" "", PU 2 0, P 3 0 "three\n" ""] true false]).err = none ∧
+    (runSerial [S [P 1 0 "one\n" "", PU 2 0, P 3 0 "three\n" ""] true false]).results.map (·.id) = [1, 2, 3] ∧
+    (runSerial [⟨[P 1 0 "one\n" "", PU 2 0, P 3 0 "three\n" ""], true, false, true, {}⟩]).err = some (.decode 2) ∧
+    -- a non-zero exit status does not change the kind of the error: the decoding raises first
+    (runSerial [S [PU 1 3, P 2 0 "" ""] true true]).err = some (.decode 1) := by
+  decide +kernel
+
+/-- **An output file that cannot be opened.** Let `c` be the first command whose `stdout:` / `stderr:` file
+    cannot be opened, `pre` the commands before it (the theorems above apply to `pre`: all its files can
+    be opened). If `pre` fails, the step is `pre`'s; otherwise everything of `pre` ran, **nothing of `c`
+    or after it is started** and the error is the one of opening the file. -/
+theorem serial_open_failure (cs : List SCommand) :
+    (∀ c ∈ (splitAtOpenFail cs).1, c.redir.openError = none) ∧
+    match (splitAtOpenFail cs).2 with
+    | none => cs = (splitAtOpenFail cs).1
+    | some (e, rest) =>
+      (∃ c, c.redir.openError = some e ∧ cs = (splitAtOpenFail cs).1 ++ c :: rest) ∧
+      runSerial cs =
+        match (runSerial (splitAtOpenFail cs).1).err with
+        | some _ => runSerial (splitAtOpenFail cs).1
+        | none => { runSerial (splitAtOpenFail cs).1 with err := some e } := by
+  have hs := splitAtOpenFail_spec cs
+  refine ⟨hs.1, ?_⟩
+  cases h2 : (splitAtOpenFail cs).2 with
+  | none => have := hs.2; rw [h2] at this; exact this
+  | some er =>
+    obtain ⟨e, rest⟩ := er
+    have h := hs.2
+    rw [h2] at h
+    obtain ⟨c, hc, hsplit⟩ := h
+    refine ⟨⟨c, hc, hsplit⟩, ?_⟩
+    have hexec : runCommands (c :: rest) = { started := [], results := [], err := some e } := by
+      simp [runCommands_cons, SCommand.exec, hc]
+    conv => lhs; rw [hsplit]
+    simp only [runSerial, runCommands_append, hexec]
+    cases hr : (runCommands (splitAtOpenFail cs).1).err <;> simp [hr]
+
+example : (runSerial [S [P 1 0 "A" ""] true true,
+                      ⟨[P 2 0 "" "", P 3 0 "" ""], false, false, false, toFile "out" (some .isDir)⟩,
+                      S [P 4 0 "" ""] false false]) =
+      { started := [1], err := some (.openOut "out" .isDir), results := [⟨1, 0, .text "A", .text ""⟩],
+        cmdOut := .single ⟨1, 0, .text "A", .text ""⟩ } ∧
+    splitAtOpenFail [S [P 1 0 "A" ""] true true,
+                     ⟨[P 2 0 "" "", P 3 0 "" ""], false, false, false, toFile "out" (some .isDir)⟩] =
+      ([S [P 1 0 "A" ""] true true], some (.openOut "out" .isDir, [])) := by
+  decide +kernel
+
+/-- **`stdout:` file of a command** (stderr inherited or discarded, the file can be opened): once the
+    command is over the file holds — after its previous content when `append`, else from scratch — what the
+    processes that existed wrote to stdout, one after the other in declaration order (the failing one
+    included, nothing of the commands never started). -/
+theorem serial_stdout_file (c : SCommand) (p : String) (fs : Fs) (h : c.redir.onlyStdoutFile p) :
+    (filesSerial [c] fs).get p =
+      some ((if c.redir.append then (fs.get p).getD "" else "") ++ catOut (ranP c.dec c.run)) := by
+  have ho : c.redir.openError = none := by simp [Redirect.openError, h.2.2]
+  have hfold := foldl_writeProc_get c.redir p h (ranP c.dec c.run) (c.redir.openFs fs) _ (openFs_get c.redir p h fs)
+  simp only [filesSerial, ho]
+  cases c.exec.err <;> exact hfold
+
+example :
+    filesSerial [⟨[P 1 0 "a\n" "x", P 2 3 "b\n" "", P 3 0 "c\n" ""], false, false, false,
+                  { stdout := .file "o", append := true }⟩] [("o", "old\n")] = [("o", "old\na\nb\n")] ∧
+    filesSerial [⟨[P 1 0 "a\n" "x", P 2 3 "b\n" "y"], false, false, false,
+                  { stdout := .file "o", stderr := .toStdout }⟩] [("o", "old\n")] = [("o", "a\nxb\ny")] ∧
+    -- stderr cannot be opened: stdout has been emptied already, nothing ran
+    filesSerial [⟨[P 1 0 "a\n" ""], false, false, false,
+                  { stdout := .file "o", stderr := .file "e", openErr := some (true, .isDir) }⟩] [("o", "old\n")]
+      = [("o", "")] := by
+  decide +kernel
+
+/-- **Stale `cmdOut`.** The step writes `context['cmdOut']` only when it has at least one result:
+    otherwise what the context held before — the result of an *earlier* step — is still there afterwards,
+    also when the commands have `save`. -/
+theorem cmdOut_after (prev : Option Val) (cs : List SCommand) :
+    (cmdOutAfter prev cs = .prior prev ↔ (runSerial cs).results = []) ∧
+    (∀ r, cmdOutAfter prev cs = .single r ↔ (runSerial cs).results = [r]) ∧
+    (∀ rs, cmdOutAfter prev cs = .many rs ↔ (runSerial cs).results = rs ∧ 2 ≤ rs.length) := by
+  simp only [cmdOutAfter, runSerial]
+  generalize (runCommands cs).results = res
+  match res with
+  | [] => simp [cmdOutOf]
+  | [r] => simp [cmdOutOf]
+  | r1 :: r2 :: rs =>
+    simp only [cmdOutOf]
+    refine ⟨by simp, by simp, fun rs' => ?_⟩
+    constructor
+    · intro h; injection h with h; subst h; simp
+    · intro h; rw [h.1]
+
+/-- `save` and the first command cannot be started (or its output cannot be decoded, or its output file
+    cannot be opened …): no result, the previous step's `cmdOut` survives. -/
+example :
+    cmdOutAfter (some (.str "previous step's")) [S [PX 1 .notFound, P 2 0 "" ""] true true]
+      = .prior (some (.str "previous step's")) ∧
+    cmdOutAfter (some (.str "previous step's")) [S [PU 1 0] true true] = .prior (some (.str "previous step's")) ∧
+    cmdOutAfter none [S [P 1 0 "x" ""] false false] = .prior none ∧
+    cmdOutAfter (some (.str "previous step's")) [S [P 1 0 "x" ""] true true]
+      = .single ⟨1, 0, .text "x", .text ""⟩ := by
+  decide +kernel
+
+/-! ## From the configuration to the commands -/
+
+/-- The commands `CmdStep.__init__` / `AsyncCmdStep.__init__` build hold the instruction strings in the
+    order a two-line flattening of the configuration value gives (`flattenSpec`: the items of the
+    configuration, each item's `run` strings, sub-lists inlined), each with the `save` / `text` of its item
+    — for every configuration the constructor accepts. -/
+theorem parse_declaration_order (async dflt : Bool) (cfg : Val) (cs : List RawCommand)
+    (h : parseCmdConfig async dflt (some cfg) = some (.ok cs)) : rawDecls cs = flattenSpec cfg :=
+  parse_decls async dflt cfg cs h
+
+/-- … hence the declarations of the serial step the model runs are the scripted outcomes of exactly these
+    strings, in this order. -/
+theorem serial_cfg_declaration_order (dflt : Bool) (w : World) (cfg : Val) (cs : List RawCommand)
+    (h : parseCmdConfig false dflt (some cfg) = some (.ok cs)) :
+    (declsOf (cs.map (RawCommand.toS w))).map (fun d => (d.proc, d.save, d.text)) =
+      (flattenSpec cfg).map (fun x => (w.proc x.1, x.2.1, x.2.2)) := by
+  rw [declsOf_toS, parse_decls false dflt cfg cs h]
+
+example :
+    flattenSpec (.list [.str "a", .dict [(.str "run", .list [.str "b", .str "c"]), (.str "save", .bool true)],
+                        .dict [(.str "run", .str "d"), (.str "save", .str "True"), (.str "bytes", .int 1)]])
+      = [("a", false, false), ("b", true, true), ("c", true, true), ("d", true, false)] ∧
+    (parseCmdConfig true false
+        (some (.list [.str "a", .list [.str "b", .str "c"],
+                      .dict [(.str "run", .list [.str "d", .list [.str "e", .str "f"]])]]))).map
+        (fun r => match r with | .ok cs => rawDecls cs | .error _ => [])
+      = some [("a", false, false), ("b", false, false), ("c", false, false), ("d", false, false),
+              ("e", false, false), ("f", false, false)] := by
+  decide +kernel
+
+/-- The constructor's error branches. -/
+example :
+    parseCmdConfig false false none = some (.error excNoKey) ∧
+    parseCmdConfig false false (some .none) = some (.error excNoValue) ∧
+    parseCmdConfig false false (some (.int 5)) = some (.error excBadConfig) ∧
+    parseCmdConfig false false (some (.list [.str "a", .int 5])) = some (.error excBadItem) ∧
+    parseCmdConfig false false (some (.list [.str "a", .list [.str "b"]])) = some (.error excBadItem) ∧
+    parseCmdConfig false false (some (.dict [(.str "save", .bool true)])) = some (.error excRunMissing) ∧
+    parseCmdConfig false false (some (.dict [(.str "run", .list [])])) = some (.error excRunEmpty) ∧
+    parseCmdConfig false false (some (.dict [(.str "run", .str "")])) = some (.error excRunEmpty) ∧
+    parseCmdConfig true false (some (.dict [(.str "run", .str "a"), (.str "save", .bool true),
+                                             (.str "stderr", .str "/dev/null")])) = some (.error excSaveRedirect) ∧
+    parseCmdConfig false false (some (.dict [(.str "run", .str "a"), (.str "stdout", .str "o"),
+                                              (.str "stderr", .str "/dev/stdout"), (.str "append", .int 1)])) =
+      some (.ok [⟨.single "a", { simpleSettings false with stdout := .file "o", stderr := .toStdout, append := true }⟩]) := by
+  refine ⟨?_, ?_, ?_, ?_, ?_, ?_, ?_, ?_, ?_, ?_⟩ <;> rfl
 
 /-! ## cmds / shells -/
 
@@ -159,32 +431,51 @@ theorem async_results_order_independent (cs : List ACommand) (s₁ s₂ : List N
     (runAsync cs s₁).started = (runAsync cs s₂).started := by
   simp [runAsync, final_lanes]
 
-/-- … and they are in declaration order: flattened, `cmdOut` is the items of the `save` lanes in
-    the order the lanes are declared, each lane contributing one item per instruction it attempted, in
-    sub-list order (the exception object for the one that could not be started, as the code does);
-    the `SubprocessResult`s among them are exactly one per process that existed, in that order.
-    `cmdOut` is set iff some command has `save`. -/
+theorem items_results (c : ACommand) : itemResults c.items = c.lanes.flatMap ALane.results := by
+  unfold ACommand.items ACommand.lanes
+  cases c.redir.openError with
+  | some e => simp [itemResults]
+  | none =>
+    simp only [itemResults_flatMap]
+    exact congrArg (fun f => List.flatMap f _) (funext fun l => (ALane.results_eq l).symm)
+
+theorem lanesOf_flatMap (cs : List ACommand) : lanesOf cs = cs.flatMap ACommand.lanes := by
+  induction cs with
+  | nil => rfl
+  | cons c cs ih => simp [lanesOf, ih]
+
+/-- … and they are in declaration order: flattened, `cmdOut` is the items of the `save` commands in
+    the order the commands and their lanes are declared, each lane contributing one item per instruction it
+    attempted, in sub-list order (the exception object for the one that could not be started / whose output
+    could not be decoded, as the code does; one exception for a command whose output file could not be
+    opened); the `SubprocessResult`s among them are exactly one per process that existed **and whose
+    output could be decoded**, in that order. `cmdOut` is set iff some command has `save`. -/
 theorem async_cmdOut_declaration_order (cs : List ACommand) (s : List Nat) :
     match (runAsync cs s).cmdOut with
     | none => cs.any (·.save) = false
     | some slots => cs.any (·.save) = true ∧
-        slotItems slots = ((alanesOf cs).filter (·.save)).flatMap ALane.items ∧
-        slotResults slots = ((alanesOf cs).filter (·.save)).flatMap ALane.results := by
+        slotItems slots = (cs.filter (·.save)).flatMap ACommand.items ∧
+        slotResults slots = (lanesOf (cs.filter (·.save))).flatMap ALane.results := by
   simp only [runAsync, final_lanes]
   cases h : cs.any (·.save)
   · simp
   · simp only [if_true]
     refine ⟨trivial, (collect_final cs).1, ?_⟩
-    simp only [slotResults, (collect_final cs).1, itemResults_flatMap]
-    exact congrArg (fun f => List.flatMap f _) (funext fun l => (ALane.results_eq l).symm)
+    rw [slotResults, (collect_final cs).1, itemResults_flatMap, lanesOf_flatMap, List.flatMap_assoc]
+    exact congrArg (fun f => List.flatMap f _) (funext fun c => items_results c)
 
-/-- When every command has `save`: `cmdOut` holds exactly one `SubprocessResult` per process that
-    existed, in declaration order (lane by lane, sub-list order inside a lane). -/
+/-- When every command has `save`: `cmdOut` holds one `SubprocessResult` per process that existed and whose
+    output could be decoded, in declaration order (lane by lane, sub-list order inside a lane); when nothing
+    undecodable is captured: **exactly one per process that existed**. -/
 theorem async_cmdOut_one_result_per_process (cs : List ACommand) (s : List Nat)
     (hs : ∀ c ∈ cs, c.save = true) :
     match (runAsync cs s).cmdOut with
     | none => cs = []
-    | some slots => (slotResults slots).map (·.id) = (runAsync cs s).started := by
+    | some slots =>
+      (slotResults slots).map (·.id) = (lanesOf cs).flatMap (fun l =>
+        ((ranP l.dec l.procs).filter (fun p => !(l.dec && p.decodeFails))).map (·.id)) ∧
+      ((∀ l ∈ lanesOf cs, ∀ p ∈ l.procs, (l.dec && p.decodeFails) = false) →
+        (slotResults slots).map (·.id) = (runAsync cs s).started) := by
   have h := async_cmdOut_declaration_order cs s
   cases hc : (runAsync cs s).cmdOut with
   | none =>
@@ -195,87 +486,113 @@ theorem async_cmdOut_one_result_per_process (cs : List ACommand) (s : List Nat)
   | some slots =>
     rw [hc] at h
     obtain ⟨_, _, h3⟩ := h
-    have hall : ∀ l ∈ alanesOf cs, l.save = true := alanes_all_save cs hs
-    have hfil : (alanesOf cs).filter (·.save) = alanesOf cs := List.filter_eq_self.mpr hall
-    simp only [h3, hfil, runAsync, final_lanes, List.map_map]
-    rw [← alanesOf_procs, List.map_map, List.map_flatMap, List.flatten_eq_flatMap, List.flatMap_map]
-    refine congrArg (fun f => List.flatMap f _) (funext fun l => ?_)
-    simp only [Function.comp, laneStarted_final, ALane.results, List.map_map]
-    apply List.map_congr_left
-    intro p _
-    simp only [Function.comp, mkResultAsync]
-    split <;> try split
-    all_goals rfl
+    have hfil : cs.filter (·.save) = cs := List.filter_eq_self.mpr (fun c hc' => hs c hc')
+    have hres : ∀ l : ALane, l.results.map (·.id) =
+        ((ranP l.dec l.procs).filter (fun p => !(l.dec && p.decodeFails))).map (·.id) := by
+      intro l
+      simp only [ALane.results, ranP, List.filter_filter, List.map_map]
+      have : (fun p => p.ran && !(l.dec && p.decodeFails)) =
+          (fun p : Proc => (!(l.dec && p.decodeFails)) && p.ran) := by
+        funext p; exact Bool.and_comm _ _
+      rw [this]
+      apply List.map_congr_left
+      intro p _
+      simp only [Function.comp, mkResultAsync]
+      split <;> try split
+      all_goals rfl
+    have h1 : (slotResults slots).map (·.id) = (lanesOf cs).flatMap (fun l =>
+        ((ranP l.dec l.procs).filter (fun p => !(l.dec && p.decodeFails))).map (·.id)) := by
+      rw [h3, hfil, List.map_flatMap]
+      exact congrArg (fun f => List.flatMap f _) (funext hres)
+    refine ⟨h1, fun hd => ?_⟩
+    rw [h1]
+    simp only [runAsync, final_lanes, List.map_map, List.flatten_eq_flatMap, List.flatMap_map]
+    apply flatMap_congr_mem
+    intro l hl
+    simp only [Function.comp, laneStarted_final, ranP]
+    congr 1
+    apply List.filter_eq_self.mpr
+    intro p hp
+    have hp' : p ∈ l.procs := by
+      obtain ⟨rest, hsplit, _⟩ := takeThrough_split l.dec l.procs
+      rw [hsplit]
+      simp only [List.mem_filter] at hp
+      simp [hp.1]
+    simp [hd l hl p hp']
 
 /-- Every top-level entry is started before any process has been waited for (the trace of every
     schedule begins with the start of the first process of each lane that can be started), and ends
     up among the started. -/
 theorem async_all_started (cs : List ACommand) (s : List Nat) :
     (∃ rest, (runAsync cs s).trace = startEvents (lanesOf cs) ++ rest) ∧
-    ∀ ps ∈ lanesOf cs, ∀ p, ps.head? = some p → p.spawn = none → p.id ∈ (runAsync cs s).started := by
+    ∀ l ∈ lanesOf cs, ∀ p, l.procs.head? = some p → p.spawn = none → p.id ∈ (runAsync cs s).started := by
   refine ⟨⟨_, by simp only [runAsync, List.append_assoc]; rfl⟩, ?_⟩
-  intro ps hps p hp hsp
+  intro l hl p hp hsp
   simp only [runAsync, final_lanes, List.mem_flatten, List.mem_map]
-  refine ⟨laneStarted (finalLane ps), ⟨finalLane ps, ⟨ps, hps, rfl⟩, rfl⟩, ?_⟩
+  refine ⟨laneStarted (finalLane l.dec l.procs), ⟨finalLane l.dec l.procs, ⟨l, hl, rfl⟩, rfl⟩, ?_⟩
+  obtain ⟨ps, sv, tx⟩ := l
   cases ps with
   | nil => simp at hp
   | cons q qs =>
     simp only [List.head?_cons, Option.some.injEq] at hp
     subst hp
     rw [laneStarted_final]
-    by_cases h : q.stops = true <;> simp [takeThrough, h, Proc.ran, hsp]
+    by_cases h : q.stops (ALane.dec ⟨q :: qs, sv, tx⟩) = true <;> simp [takeThrough, h, Proc.ran, hsp]
 
 /-- `startEvents` really is "the first instruction of every lane, when it can be started". -/
-theorem startEvents_spec (ls : List (List Proc)) :
-    startEvents ls = ls.flatMap (fun ps => match ps.head? with
+theorem startEvents_spec (ls : List ALane) :
+    startEvents ls = ls.flatMap (fun l => match l.procs.head? with
       | some p => if p.spawn = none then [Event.start p.id] else []
       | none => []) := by
   induction ls with
   | nil => rfl
-  | cons ps ls ih =>
+  | cons l ls ih =>
     simp only [startEvents, List.flatMap_cons, ih]
     congr 1
+    obtain ⟨ps, sv, tx⟩ := l
     cases ps with
     | nil => rfl
     | cons p ps => cases hp : p.spawn <;> simp [launchEvents, hp]
 
-/-- A serial sub-list stops at its first non-zero exit (positive or negative) or unstartable command:
-    the processes started are, lane by lane, the startable ones of the prefix of the lane up to and
-    including the first instruction that stops it. -/
+/-- A serial sub-list stops at its first non-zero exit (positive or negative), unstartable command or
+    undecodable captured output: the processes started are, lane by lane, the startable ones of the
+    prefix of the lane up to and including the first instruction that stops it. -/
 theorem async_sublist_prefix (cs : List ACommand) (s : List Nat) :
-    (runAsync cs s).started = (lanesOf cs).flatMap (fun ps => (ranP ps).map (·.id)) := by
+    (runAsync cs s).started = (lanesOf cs).flatMap (fun l => (ranP l.dec l.procs).map (·.id)) := by
   simp only [runAsync, final_lanes, List.map_map]
   rw [List.flatMap_def]
   congr 1
   apply List.map_congr_left
-  intro ps _
+  intro l _
   simp [laneStarted_final, ranP]
 
 /-- `takeThrough` is what its name says: a prefix of the lane; every instruction in it but the last
-    could be started and exited 0; either it is the whole lane and that holds of the last one too, or
-    the last one has a non-zero status (`≠ 0` over `Int`: a signal counts) or could not be started. -/
-theorem takeThrough_spec (ps : List Proc) :
-    ∃ rest, ps = takeThrough ps ++ rest ∧
-      ((rest = [] ∧ ∀ p ∈ takeThrough ps, p.spawn = none ∧ p.code = 0) ∨
-       ∃ init p, takeThrough ps = init ++ [p] ∧ (∀ x ∈ init, x.spawn = none ∧ x.code = 0) ∧
-         (p.spawn ≠ none ∨ p.code ≠ 0)) := by
-  obtain ⟨rest, h1, h2⟩ := takeThrough_split ps
+    could be started, exited 0 and (where decoded) wrote decodable output; either it is the whole lane and
+    that holds of the last one too, or the last one has a non-zero status (`≠ 0` over `Int`: a signal
+    counts), could not be started, or its captured output cannot be decoded. -/
+theorem takeThrough_spec (dec : Bool) (ps : List Proc) :
+    ∃ rest, ps = takeThrough dec ps ++ rest ∧
+      ((rest = [] ∧ ∀ p ∈ takeThrough dec ps, p.spawn = none ∧ p.code = 0 ∧ (dec && p.decodeFails) = false) ∨
+       ∃ init p, takeThrough dec ps = init ++ [p] ∧
+         (∀ x ∈ init, x.spawn = none ∧ x.code = 0 ∧ (dec && x.decodeFails) = false) ∧
+         (p.spawn ≠ none ∨ p.code ≠ 0 ∨ (dec && p.decodeFails) = true)) := by
+  obtain ⟨rest, h1, h2⟩ := takeThrough_split dec ps
   refine ⟨rest, h1, ?_⟩
   cases h2 with
-  | inl h => exact .inl ⟨h.1, fun p hp => (stops_false_iff p).mp (h.2 p hp)⟩
+  | inl h => exact .inl ⟨h.1, fun p hp => (stops_false_iff dec p).mp (h.2 p hp)⟩
   | inr h =>
     obtain ⟨init, p, h3, h4, h5⟩ := h
-    exact .inr ⟨init, p, h3, fun x hx => (stops_false_iff x).mp (h4 x hx), (stops_true_iff p).mp h5⟩
+    exact .inr ⟨init, p, h3, fun x hx => (stops_false_iff dec x).mp (h4 x hx), (stops_true_iff dec p).mp h5⟩
 
 /-- … and the processes that existed (`ranP`) are that prefix without a final unstartable one. -/
-theorem ranP_spec (ps : List Proc) :
-    (∀ p ∈ ranP ps, p.spawn = none) ∧
-    (ranP ps = takeThrough ps ∨ ∃ q, q.spawn ≠ none ∧ takeThrough ps = ranP ps ++ [q]) := by
+theorem ranP_spec (dec : Bool) (ps : List Proc) :
+    (∀ p ∈ ranP dec ps, p.spawn = none) ∧
+    (ranP dec ps = takeThrough dec ps ∨ ∃ q, q.spawn ≠ none ∧ takeThrough dec ps = ranP dec ps ++ [q]) := by
   refine ⟨fun p hp => ?_, ?_⟩
   · simp only [ranP, List.mem_filter] at hp
     exact (ran_iff p).mp hp.2
-  · obtain ⟨rest, _, h2⟩ := takeThrough_split ps
-    have hfil : ∀ {l : List Proc}, (∀ x ∈ l, x.stops = false) → l.filter Proc.ran = l :=
+  · obtain ⟨rest, _, h2⟩ := takeThrough_split dec ps
+    have hfil : ∀ {l : List Proc}, (∀ x ∈ l, x.stops dec = false) → l.filter Proc.ran = l :=
       fun h => List.filter_eq_self.mpr (fun x hx => ran_of_not_stops (h x hx))
     cases h2 with
     | inl h => exact .inl (hfil h.2)
@@ -294,18 +611,18 @@ theorem ranP_spec (ps : List Proc) :
         simp [Proc.ran, hsp]
 
 example :
-    takeThrough [⟨1, none, 0, "", ""⟩, ⟨2, none, -15, "", ""⟩, ⟨3, none, 0, "", ""⟩]
-      = [⟨1, none, 0, "", ""⟩, ⟨2, none, -15, "", ""⟩] ∧
-    ranP [⟨1, none, 0, "", ""⟩, ⟨2, some .badArgs, 0, "", ""⟩, ⟨3, none, 0, "", ""⟩] = [⟨1, none, 0, "", ""⟩] ∧
-    takeThrough [⟨1, none, 0, "", ""⟩, ⟨2, some .badArgs, 0, "", ""⟩, ⟨3, none, 0, "", ""⟩]
-      = [⟨1, none, 0, "", ""⟩, ⟨2, some .badArgs, 0, "", ""⟩] ∧
-    startEvents [[⟨1, some .notFound, 0, "", ""⟩], [⟨2, none, 0, "", ""⟩, ⟨3, none, 0, "", ""⟩]] = [.start 2] := by
+    takeThrough false [P 1 0 "" "", P 2 (-15) "" "", P 3 0 "" ""] = [P 1 0 "" "", P 2 (-15) "" ""] ∧
+    ranP false [P 1 0 "" "", PX 2 .badArgs, P 3 0 "" ""] = [P 1 0 "" ""] ∧
+    takeThrough false [P 1 0 "" "", PX 2 .badArgs, P 3 0 "" ""] = [P 1 0 "" "", PX 2 .badArgs] ∧
+    takeThrough true [P 1 0 "" "", PU 2 0, P 3 0 "" ""] = [P 1 0 "" "", PU 2 0] ∧
+    takeThrough false [P 1 0 "" "", PU 2 0, P 3 0 "" ""] = [P 1 0 "" "", PU 2 0, P 3 0 "" ""] ∧
+    startEvents [⟨[PX 1 .notFound], false, false⟩, ⟨[P 2 0 "" "", P 3 0 "" ""], false, false⟩] = [.start 2] := by
   decide +kernel
 
 /-- "… wait for all of them": for every command list — whatever its entries do: exit 0, exit non-zero,
-    die of a signal, or *raise instead of starting* — and every completion schedule, the step returns
-    only after every process it started has finished: nothing is running at that moment, and each
-    started process has its exit (`fin`) in the trace of the step. -/
+    die of a signal, write undecodable output, or *raise instead of starting* — and every completion
+    schedule, the step returns only after every process it started has finished: nothing is running at
+    that moment, and each started process has its exit (`fin`) in the trace of the step. -/
 theorem async_waits_for_all (cs : List ACommand) (s : List Nat) :
     (runAsync cs s).running = [] ∧
     ∀ i ∈ (runAsync cs s).started, Event.fin i ∈ (runAsync cs s).trace := by
@@ -324,40 +641,184 @@ theorem async_waits_for_all (cs : List ACommand) (s : List Nat) :
 /-- an entry that cannot be started declared *first*, a slow failing sibling after it: the sibling is
     waited for (its exit is in the trace), its failure is listed, its result is in `cmdOut`. -/
 example :
-    let cs : List ACommand := [⟨.many [.one ⟨1, some .notFound, 0, "", ""⟩, .one ⟨2, none, 3, "late", ""⟩], true, true⟩]
+    let cs : List ACommand := [A (.many [.one (PX 1 .notFound), .one (P 2 3 "late" "")]) true true]
     (runAsync cs []).trace = [.start 2, .fin 2] ∧ (runAsync cs []).running = [] ∧
     (runAsync cs []).errors = [.spawn 1 .notFound, .exit 2 3] ∧
-    (runAsync cs []).cmdOut = some [.one (.exc 1 .notFound), .one (.res ⟨2, 3, .text "late", .bytes ""⟩)] := by
+    (runAsync cs []).cmdOut = some [.one (.exc (.spawn 1 .notFound)), .one (.res ⟨2, 3, .text "late", .bytes ""⟩)] := by
   decide +kernel
 
-/-- One aggregate error lists every failure: the errors are exactly the instructions attempted that
-    exited non-zero (`SubprocessError` with command and code) or could not be started (their own
-    exception), in declaration order. -/
-theorem async_error_lists_all_failures (cs : List ACommand) (s : List Nat) :
-    (runAsync cs s).errors =
-      (((lanesOf cs).flatMap takeThrough).filter Proc.stops).map Proc.error := by
-  simp only [runAsync, final_lanes]
-  rw [(collect_final cs).2, ← alanesOf_procs]
-  simp only [List.flatMap_map, List.filter_flatMap, List.map_flatMap]
-  refine congrArg (fun f => List.flatMap f _) (funext fun l => ?_)
-  exact ALane.errors_eq l
+/-- **Shape of the trace**, for every command list and every schedule:
+    * the trace is a permutation of the lanes' sequential lives `start p₁, fin p₁, start p₂, fin p₂, …`
+      (`p₁ p₂ …` the processes of the lane that existed, in sub-list order) — nothing else is in it;
+    * in particular its start events are a permutation of `started`, and so are its exit events: every
+      process is started once and finishes once;
+    * each lane's sequential life is a *subsequence* of the trace: inside a serial sub-list `fin p` comes
+      before `start q` whenever `p` is before `q` (and `start p` before `fin p`). -/
+theorem trace_wellformed (cs : List ACommand) (s : List Nat) :
+    (runAsync cs s).trace.Perm ((lanesOf cs).flatMap (fun l => seqEvents (ranP l.dec l.procs))) ∧
+    ((runAsync cs s).trace.filterMap startId).Perm (runAsync cs s).started ∧
+    ((runAsync cs s).trace.filterMap finId).Perm (runAsync cs s).started ∧
+    ∀ l ∈ lanesOf cs, (seqEvents (ranP l.dec l.procs)).Sublist (runAsync cs s).trace := by
+  have hw0 := start_lanes_wf (lanesOf cs)
+  have hperm : (runAsync cs s).trace.Perm ((lanesOf cs).flatMap (fun l => seqEvents (ranP l.dec l.procs))) := by
+    have h1 := runSched_perm _ s hw0
+    have h2 := drainAll_perm _ (runSched_wf _ s hw0)
+    rw [final_lanes] at h2
+    simp only [List.flatMap_map, laneSeq_final] at h2
+    simp only [runAsync]
+    refine List.Perm.symm (h2.trans ?_)
+    rw [start_lanes_seq] at h1
+    exact List.Perm.append_right _ h1
+  have hstarted : (runAsync cs s).started =
+      ((lanesOf cs).flatMap (fun l => seqEvents (ranP l.dec l.procs))).filterMap startId := by
+    simp only [runAsync, final_lanes, List.map_map, List.flatten_eq_flatMap, List.flatMap_map,
+      List.filterMap_flatMap, seqEvents_starts]
+    apply flatMap_congr_mem
+    intro l _
+    simp [laneStarted_final, ranP]
+  have hstarted' : (runAsync cs s).started =
+      ((lanesOf cs).flatMap (fun l => seqEvents (ranP l.dec l.procs))).filterMap finId := by
+    rw [hstarted]
+    simp only [List.filterMap_flatMap, seqEvents_starts, seqEvents_fins]
+  refine ⟨hperm, ?_, ?_, ?_⟩
+  · rw [hstarted]; exact hperm.filterMap _
+  · rw [hstarted']; exact hperm.filterMap _
+  · intro l hl
+    have e1 := start_ext (lanesOf cs)
+    have e2 := runSched_ext _ s hw0
+    have e3 := drainAll_ext _ (runSched_wf _ s hw0)
+    have e := ExtBy_trans (ExtBy_trans e1 e2) e3
+    rw [final_lanes] at e
+    have hsub := ExtBy_from_nil e
+    simp only [runAsync]
+    apply hsub
+    simp only [List.map_map, List.mem_map]
+    exact ⟨l, hl, by simp [laneSeq_final]⟩
 
-/-- The step succeeds iff every instruction attempted could be started and exited 0. -/
+/-- lane 0 `a`; lane 1 the sub-list `[b, c]`: under the schedule "lane 1, lane 0, lane 1" the trace
+    interleaves the lanes; `fin b` is directly followed by `start c`. -/
+example :
+    let cs : List ACommand := [A (.many [.one (P 1 0 "" ""), .serial [P 2 0 "" "", P 3 0 "" ""]]) false false]
+    (runAsync cs [1, 0, 1]).trace = [.start 1, .start 2, .fin 2, .start 3, .fin 1, .fin 3] ∧
+    seqEvents (ranP false [P 2 0 "" "", P 3 0 "" ""]) = [.start 2, .fin 2, .start 3, .fin 3] := by
+  decide +kernel
+
+/-- One aggregate error lists every failure: the errors are, command by command, the exception of an
+    output file that could not be opened, or else — lane by lane — the instructions attempted that exited
+    non-zero (`SubprocessError` with command and code), wrote undecodable captured output (the
+    `UnicodeDecodeError`) or could not be started (their own exception), in declaration order. -/
+theorem async_error_lists_all_failures (cs : List ACommand) (s : List Nat) :
+    (runAsync cs s).errors = cs.flatMap (fun c =>
+      match c.redir.openError with
+      | some e => [e]
+      | none => c.lanes.flatMap (fun l =>
+          ((takeThrough l.dec l.procs).filter (Proc.stops l.dec)).map (Proc.error l.dec))) := by
+  simp only [runAsync, final_lanes]
+  rw [(collect_final cs).2]
+  refine congrArg (fun f => List.flatMap f _) (funext fun c => ?_)
+  unfold ACommand.errors ACommand.items
+  cases ho : c.redir.openError with
+  | some e => simp [itemErrors]
+  | none =>
+    simp only [List.flatMap_assoc]
+    exact congrArg (fun f => List.flatMap f _) (funext fun l => ALane.errors_eq l)
+
+/-- The step succeeds iff every output file could be opened and every instruction attempted could be
+    started, exited 0 and (where decoded) wrote decodable output. -/
 theorem async_ok_iff_all_run_zero (cs : List ACommand) (s : List Nat) :
     (runAsync cs s).errors = [] ↔
-      ∀ p ∈ (lanesOf cs).flatMap takeThrough, p.spawn = none ∧ p.code = 0 := by
-  rw [async_error_lists_all_failures]
-  simp only [List.map_eq_nil_iff, List.filter_eq_nil_iff]
+      (∀ c ∈ cs, c.redir.openError = none) ∧
+      ∀ l ∈ lanesOf cs, ∀ p ∈ takeThrough l.dec l.procs,
+        p.spawn = none ∧ p.code = 0 ∧ (l.dec && p.decodeFails) = false := by
+  rw [async_error_lists_all_failures, lanesOf_flatMap]
+  simp only [List.flatMap_eq_nil_iff, List.mem_flatMap]
   constructor
-  · intro h p hp
-    exact (stops_false_iff p).mp (by simpa using h p hp)
-  · intro h p hp
-    simp [(stops_false_iff p).mpr (h p hp)]
+  · intro h
+    refine ⟨fun c hc => ?_, fun l ⟨c, hc, hl⟩ p hp => ?_⟩
+    · have := h c hc
+      cases ho : c.redir.openError with
+      | none => rfl
+      | some e => simp [ho] at this
+    · have hc' := h c hc
+      cases ho : c.redir.openError with
+      | some e => simp [ho] at hc'
+      | none =>
+        simp only [ho, List.flatMap_eq_nil_iff, List.map_eq_nil_iff, List.filter_eq_nil_iff] at hc'
+        exact (stops_false_iff l.dec p).mp (by simpa using hc' l hl p hp)
+  · intro ⟨ho, h⟩ c hc
+    simp only [ho c hc, List.flatMap_eq_nil_iff, List.map_eq_nil_iff, List.filter_eq_nil_iff]
+    intro l hl p hp
+    simp [(stops_false_iff l.dec p).mpr (h l ⟨c, hc, hl⟩ p hp)]
+
+/-- **Undecodable captured output in the concurrent steps.** An instruction of a lane that was attempted,
+    ran, and whose captured output cannot be decoded: it is among the started, its exit is in the trace
+    (it ran to its end), the aggregate error lists the `UnicodeDecodeError` — not an exit error —, and (by
+    `async_sublist_prefix` / `takeThrough_spec`) it is the last instruction of its lane that was attempted.
+    With `save` its slot in `cmdOut` holds the exception object, not a result
+    (`async_cmdOut_declaration_order`). -/
+theorem async_undecodable (cs : List ACommand) (s : List Nat) (c : ACommand) (hc : c ∈ cs)
+    (l : ALane) (hl : l ∈ c.lanes) (p : Proc)
+    (hp : p ∈ takeThrough l.dec l.procs) (hsp : p.spawn = none) (hu : (l.dec && p.decodeFails) = true) :
+    p.id ∈ (runAsync cs s).started ∧ Event.fin p.id ∈ (runAsync cs s).trace ∧
+    CmdErr.decode p.id ∈ (runAsync cs s).errors ∧
+    Item.exc (.decode p.id) ∈ c.items ∧
+    ∃ init, takeThrough l.dec l.procs = init ++ [p] := by
+  have ho : c.redir.openError = none := by
+    cases ho : c.redir.openError with
+    | none => rfl
+    | some e => simp [ACommand.lanes, ho] at hl
+  have hstarted : p.id ∈ (runAsync cs s).started := by
+    rw [async_sublist_prefix, lanesOf_flatMap]
+    simp only [List.mem_flatMap, List.mem_map]
+    exact ⟨l, ⟨c, hc, hl⟩, p, by simp [ranP, hp, Proc.ran, hsp], rfl⟩
+  have hstops : p.stops l.dec = true := (stops_true_iff l.dec p).mpr (.inr (.inr hu))
+  have herr : p.error l.dec = .decode p.id := by simp [Proc.error, hsp, hu]
+  refine ⟨hstarted, (async_waits_for_all cs s).2 _ hstarted, ?_, ?_, ?_⟩
+  · rw [async_error_lists_all_failures]
+    simp only [List.mem_flatMap]
+    refine ⟨c, hc, ?_⟩
+    simp only [ho, List.mem_flatMap, List.mem_map, List.mem_filter]
+    exact ⟨l, hl, p, ⟨hp, hstops⟩, herr⟩
+  · simp only [ACommand.items, ho, List.mem_flatMap]
+    refine ⟨l, hl, ?_⟩
+    simp only [ALane.items, List.mem_map]
+    refine ⟨p, hp, ?_⟩
+    have hu' : (l.save && l.text && p.decodeFails) = true := hu
+    simp [mkItem, hsp, hu']
+  · obtain ⟨rest, _, h2⟩ := takeThrough_split l.dec l.procs
+    cases h2 with
+    | inl h => have := h.2 p hp; simp [hstops] at this
+    | inr h =>
+      obtain ⟨init, q, h3, h4, _⟩ := h
+      rw [h3] at hp
+      simp only [List.mem_append, List.mem_singleton] at hp
+      cases hp with
+      | inl h' => have := h4 p h'; simp [hstops] at this
+      | inr h' => exact ⟨init, by rw [h3, h']⟩
+
+/-- **An output file that cannot be opened, concurrent steps**: the command contributes no lane — none of
+    its instructions is started —, its one item is that exception, and the aggregate error lists it. The
+    other commands are not affected (their lanes are all there). -/
+theorem async_open_failure (cs : List ACommand) (s : List Nat) (c : ACommand) (hc : c ∈ cs) (e : CmdErr)
+    (ho : c.redir.openError = some e) :
+    c.lanes = [] ∧ c.items = [.exc e] ∧ e ∈ (runAsync cs s).errors := by
+  refine ⟨by simp [ACommand.lanes, ho], by simp [ACommand.items, ho], ?_⟩
+  rw [async_error_lists_all_failures]
+  simp only [List.mem_flatMap]
+  exact ⟨c, hc, by simp [ho]⟩
+
+example :
+    let cs : List ACommand := [⟨.many [.one (P 1 0 "" ""), .one (P 2 0 "" "")], false, false, toFile "o" (some .parentFile)⟩,
+                               A (.single (P 3 1 "x" "")) true true]
+    (runAsync cs []).started = [3] ∧
+    (runAsync cs []).errors = [.openOut "o" .parentFile, .exit 3 1] ∧
+    (runAsync cs []).cmdOut = some [.one (.res ⟨3, 1, .text "x", .bytes ""⟩)] := by
+  decide +kernel
 
 /-- three lanes: `a`, the sub-list `[b (exit 1), c]`, `d (exit 3)`; schedule "d, a, b" and its reverse. -/
 example :
-    let cs : List ACommand := [⟨.many [.one ⟨1, none, 0, "a", ""⟩, .serial [⟨2, none, 1, "", "e"⟩, ⟨3, none, 0, "", ""⟩]], true, true⟩,
-                               ⟨.single ⟨4, none, 3, "", ""⟩, false, false⟩]
+    let cs : List ACommand := [A (.many [.one (P 1 0 "a" ""), .serial [P 2 1 "" "e", P 3 0 "" ""]]) true true,
+                               A (.single (P 4 3 "" "")) false false]
     (runAsync cs [2, 0, 1]).errors = [.exit 2 1, .exit 4 3] ∧
     (runAsync cs [2, 0, 1]).started = [1, 2, 4] ∧
     (runAsync cs [2, 0, 1]).trace = [.start 1, .start 2, .start 4, .fin 4, .fin 1, .fin 2] ∧
@@ -370,18 +831,35 @@ example :
     `[e, f (not found), g]`; lane 3 `h` (not executable). `d` and `g` are never started; the aggregate
     error lists c, f, h in declaration order; `cmdOut` has one result for each of a, b, c, e. -/
 example :
-    let cs : List ACommand := [⟨.many [.one ⟨1, none, 0, "a", ""⟩,
-                                       .serial [⟨2, none, 0, "b", ""⟩, ⟨3, none, -9, "", ""⟩, ⟨4, none, 0, "", ""⟩],
-                                       .serial [⟨5, none, 0, "e", ""⟩, ⟨6, some .notFound, 0, "", ""⟩, ⟨7, none, 0, "", ""⟩],
-                                       .one ⟨8, some .permission, 0, "", ""⟩], true, true⟩]
+    let cs : List ACommand := [A (.many [.one (P 1 0 "a" ""),
+                                       .serial [P 2 0 "b" "", P 3 (-9) "" "", P 4 0 "" ""],
+                                       .serial [P 5 0 "e" "", PX 6 .notFound, P 7 0 "" ""],
+                                       .one (PX 8 .permission)]) true true]
     (runAsync cs [2, 1, 0, 1]).errors = [.exit 3 (-9), .spawn 6 .notFound, .spawn 8 .permission] ∧
     (runAsync cs [2, 1, 0, 1]).started = [1, 2, 3, 5] ∧
     (runAsync cs [2, 1, 0, 1]).trace = [.start 1, .start 2, .start 5, .fin 5, .fin 2, .start 3, .fin 1, .fin 3] ∧
     (runAsync cs []).cmdOut = some [.one (.res ⟨1, 0, .text "a", .bytes ""⟩),
                                     .sub [.res ⟨2, 0, .text "b", .bytes ""⟩, .res ⟨3, -9, .bytes "", .bytes ""⟩],
-                                    .sub [.res ⟨5, 0, .text "e", .bytes ""⟩, .exc 6 .notFound],
-                                    .one (.exc 8 .permission)] ∧
+                                    .sub [.res ⟨5, 0, .text "e", .bytes ""⟩, .exc (.spawn 6 .notFound)],
+                                    .one (.exc (.spawn 8 .permission))] ∧
     (match (runAsync cs []).cmdOut with | some ss => (slotResults ss).map (·.id) | none => []) = [1, 2, 3, 5] := by
+  decide +kernel
+
+/-- undecodable output, concurrent: `echo one`, `<prints ff fe>`, `echo three` as three lanes and as one
+    serial sub-list, with `save`: every process exits 0; the aggregate error carries the decode error; in
+    the sub-list `three` is never started; `cmdOut` holds the exception object in place of a result. With
+    `bytes` nothing is decoded and nothing fails. -/
+example :
+    let top : List ACommand := [A (.many [.one (P 1 0 "one\n" ""), .one (PU 2 0), .one (P 3 0 "three\n" "")]) true true]
+    let sub : List ACommand := [A (.many [.serial [P 1 0 "one\n" "", PU 2 0, P 3 0 "three\n" ""]]) true true]
+    let raw : List ACommand := [A (.many [.serial [P 1 0 "one\n" "", PU 2 0, P 3 0 "three\n" ""]]) true false]
+    (runAsync top []).errors = [.decode 2] ∧ (runAsync top []).started = [1, 2, 3] ∧
+    (runAsync top []).cmdOut = some [.one (.res ⟨1, 0, .text "one", .bytes ""⟩), .one (.exc (.decode 2)),
+                                     .one (.res ⟨3, 0, .text "three", .bytes ""⟩)] ∧
+    (runAsync sub []).errors = [.decode 2] ∧ (runAsync sub []).started = [1, 2] ∧
+    (runAsync sub []).trace = [.start 1, .fin 1, .start 2, .fin 2] ∧
+    (runAsync sub []).cmdOut = some [.sub [.res ⟨1, 0, .text "one", .bytes ""⟩, .exc (.decode 2)]] ∧
+    (runAsync raw []).errors = [] ∧ (runAsync raw []).started = [1, 2, 3] := by
   decide +kernel
 
 end Pypyr.C17
